@@ -61,6 +61,7 @@ enum OEv { Bind, Ready(bool), Define(u64, Ev), DefChanged(u64), Query(Qry) }
 
 // ---- the real instance ---------------------------------------------------------------------------
 struct RoomInfo { id: Uid, groups: Vec<(u64, Uid)>, evs: Vec<Ev>, snapshot: Option<Arc<Room>> }
+#[allow(dead_code)]
 struct NodeInfo { id: Uid, room: Option<u64>, entity: String, mdate: i64 }
 struct EdgeInfo { src: u64, dest: Uid, cdate: i64 }
 struct World {
@@ -361,7 +362,7 @@ async fn run_session(w: &mut World, key_index: u64, evs: &[(i64, OEv)]) -> (Stri
     let inst = format!("{{| i_defs := {}; i_nodes := {}; i_edges := {} |}}", glist(&defs), glist(&nodes), glist(&edges));
     let mut c = Conn::new(w, key_index);
     let mut s = Session { coq_events: vec![], obs: vec![], stats: HashMap::new() };
-    let mut bump = |s: &mut Session, k: &str| { *s.stats.entry(k.to_string()).or_insert(0) += 1; };
+    let bump = |s: &mut Session, k: &str| { *s.stats.entry(k.to_string()).or_insert(0) += 1; };
     for (t, e) in evs {
         w.set_clock(*t);
         match e {
